@@ -23,6 +23,7 @@ from vmon import contracts
 from vmon.core import outcome
 
 PROPERTY_ID = "C19"
+REPO_TEST_MODULES = ["test_network", "test_block", "test_helper"]  # thorough tier: extra workload under the contracts
 RULE = (
     "cases = integers / byte strings through the primitive codecs, (network, command, payload) triples through "
     "NetworkEnvelope.serialize+parse, byte strings derived from valid envelopes by one corrupted byte / truncation / foreign "
